@@ -331,3 +331,69 @@ func SpareIntactBytes(b []byte) bool {
 	}
 	return true
 }
+
+// EmptyForms is the number of ways the checks hand over an EMPTY slice: "every bitmap, empty included" is
+// a statement about the slice's CONTENT, so a nil slice, a non-nil slice of length 0, one with (dirty)
+// spare capacity and one that is the empty tail of a longer array all have to give the empty answer.
+const EmptyForms = 4
+
+var emptyFormNames = [EmptyForms]string{"nil", "non-nil/len0/cap0", "len0/dirty-spare-capacity", "empty-tail-of-longer-array"}
+
+// EmptyFormName names form f (for case descriptions).
+func EmptyFormName(f int) string { return emptyFormNames[f] }
+
+// EmptyU64 returns the empty []uint64 of form f.
+func EmptyU64(f int) []uint64 {
+	switch f {
+	case 0:
+		return nil
+	case 1:
+		return []uint64{}
+	case 2:
+		return DirtyU64(nil, 8)[:0]
+	}
+	x := DirtyU64([]uint64{^uint64(0), 1, 0x8000000000000000}, 0)
+	return x[3:3]
+}
+
+// EmptyI32 returns the empty []int32 of form f.
+func EmptyI32(f int) []int32 {
+	switch f {
+	case 0:
+		return nil
+	case 1:
+		return []int32{}
+	case 2:
+		return DirtyI32(nil)[:0]
+	}
+	x := DirtyI32([]int32{7, 1, -1})[:3:3]
+	return x[3:3]
+}
+
+// EmptyBytes returns the empty []byte of form f.
+func EmptyBytes(f int) []byte {
+	switch f {
+	case 0:
+		return nil
+	case 1:
+		return []byte{}
+	case 2:
+		return DirtyBytes(nil)[:0]
+	}
+	x := DirtyBytes([]byte{0xff, 1, 0x80})[:3:3]
+	return x[3:3]
+}
+
+// EmptyStrings returns the empty []string of form f.
+func EmptyStrings(f int) []string {
+	switch f {
+	case 0:
+		return nil
+	case 1:
+		return []string{}
+	case 2:
+		return append(make([]string, 0, 8), "canary", "\xff")[:0]
+	}
+	x := []string{"a", "b", "c"}
+	return x[3:3]
+}
